@@ -108,7 +108,7 @@ HAWK_INLINE hawk_rbt_pair_t* hawk_rbt_allocpair (
 	else
 	{
 		VPTR(pair) = vcop(rbt, vptr, vlen);
-		if (VPTR(pair) != HAWK_NULL)
+		if (VPTR(pair) == HAWK_NULL)
 		{
 			if (rbt->style->freeer[HAWK_RBT_KEY])
 				rbt->style->freeer[HAWK_RBT_KEY] (rbt, KPTR(pair), KLEN(pair));
